@@ -120,7 +120,7 @@ class GenotypeVcf(BCheck):
     name = "C08.run_genotype-output"
     contract = ("every genotyped call of `whatshap genotype` (output VCF and --prioroutput VCF): 10^GL sums to one; GT is the unique maximum of GL if that exceeds the threshold "
                 "1 - 10^(-T/10) and ./. otherwise; GQ == round(-10 log10(sum of the other genotypes' likelihoods)) (+-1 for the 6-digit GL text)")
-    rule = ("seeded diploid BAM scenarios (SNVs, depth 1-6, read length 30-100 so that some variants are covered only by reads seeing no second variant), thresholds T in "
+    rule = ("seeded diploid BAM scenarios (1 sample, or 2-3 unrelated samples genotyped in one run; SNVs, depth 1-6, read length 30-100 so that some variants are covered only by reads seeing no second variant), thresholds T in "
             "{0, 3, 10, 20, 50}, --constant in {0, 0.01, 0.05, 0.3}, priors on/off, with --prioroutput; calls within 1e-4 of a tie or of the threshold are skipped; "
             "non-trivial = the file has a call that is not ./.")
     budget_s = {"quick": 150, "thorough": 1500}
@@ -140,7 +140,7 @@ class GenotypeVcf(BCheck):
         logging.disable(logging.CRITICAL)
         r = random.Random(inp["seed"])
         # a third of the scenarios are deep (very confident calls: the other genotypes' mass is far below double-precision epsilon of 1)
-        sc = BAM.generate(r, n_samples=(1, 1), kinds=("snv",), depth=(8, 14) if inp["seed"] % 3 == 0 else (1, 6), read_len=(30, 100), n_variants=(3, 8), hom_frac=0.3, softclip=0.0, eqx=0.0)
+        sc = BAM.generate(r, n_samples=(1, 1) if inp["seed"] % 2 == 0 else (2, 3), kinds=("snv",), depth=(8, 14) if inp["seed"] % 3 == 0 else (1, 6), read_len=(30, 100), n_variants=(3, 8), hom_frac=0.3, softclip=0.0, eqx=0.0)
         d = tempfile.mkdtemp(prefix="c08_")
         try:
             paths = BAM.materialize(sc, d)
@@ -160,12 +160,11 @@ class GenotypeVcf(BCheck):
                     continue
                 with open(p) as f:
                     _, samples, recs = V.parse(f.read())
-                for rec in recs:
-                    call = rec["calls"][0]
+                for rec, (si, call) in ((rec, sc_) for rec in recs for sc_ in enumerate(rec["calls"])):
                     if "GL" not in call or call["GL"] in (".", None):
                         continue
                     L = [10 ** float(x) for x in call["GL"].split(",")]
-                    where = "%s %s:%d" % (which, rec["chrom"], rec["pos"])
+                    where = "%s %s:%d sample %s" % (which, rec["chrom"], rec["pos"], samples[si])
                     if abs(sum(L) - 1.0) > 2e-3:
                         return dict(expected="%s: 10^GL sums to 1" % where, observed="%r (GL %s)" % (sum(L), call["GL"]), clause="distribution")
                     srt = sorted(L)
